@@ -16,6 +16,11 @@ VARIABLES call, out
 vars == <<call, out>>
 
 Shapes == UNION {[1..r -> 1..MaxSize] : r \in 1..MaxDims}
+\* shapes with an empty dimension (an empty batch, an empty event): sums over nothing are 0
+ZeroShapes == {s \in UNION {[1..r -> 0..2] : r \in 1..MaxDims} : \E i \in DOMAIN s : s[i] = 0}
+\* |det(c * P)| = c^n for a signed permutation matrix P: log|det| = n log c, whatever n (the
+\* determinant itself leaves the floating-point range long before its logarithm does)
+ScaledPerms == {[n |-> n, num |-> c[1], den |-> c[2]] : n \in {3, 48, 64}, c \in {<<1, 20>>, <<1, 2>>, <<2, 1>>, <<20, 1>>}}
 Ceil2(f) == (f + 1) \div 2
 
 \* ---- tile(x, n): every element repeated n times consecutively (x flattened)
@@ -59,7 +64,8 @@ Calls ==
        {[f |-> "tile", L |-> L, n |-> n] : L \in 1..MaxSize, n \in 1..MaxReps}
   \cup {[f |-> "repeat_rows", s |-> s, n |-> n] : s \in Shapes, n \in 1..MaxReps}
   \cup {[f |-> "merge_split", s |-> s, k |-> k] : s \in {s \in Shapes : Len(s) >= 2}, k \in 1..2}
-  \cup {[f |-> "sum_except_batch", s |-> s, nb |-> nb] : s \in Shapes, nb \in 0..MaxDims}
+  \cup {[f |-> "sum_except_batch", s |-> s, nb |-> nb] : s \in Shapes \cup ZeroShapes, nb \in 0..MaxDims}
+  \cup {[f |-> "logabsdet_scaled", m |-> m] : m \in ScaledPerms}
   \cup {[f |-> "searchsorted", locs |-> l, x |-> x] : l \in Locs, x \in -10..10}
   \cup {[f |-> "cbrt", c |-> c] : c \in Cubes}
   \cup {[f |-> "logabsdet", m |-> m] : m \in Mats2}
@@ -80,6 +86,7 @@ Result(c) ==
          ELSE [o |-> "bin", idx |-> SearchSorted(c.locs, c.x)]
     [] c.f = "cbrt" -> [r |-> CubeRoot(c.c)]
     [] c.f = "logabsdet" -> [det |-> Det2(c.m)]
+    [] c.f = "logabsdet_scaled" -> [base |-> <<c.m.num, c.m.den>>, pow |-> c.m.n]     \* |det| = (num/den)^n
     [] c.f = "mask" ->
         (CASE c.kind = "alt_even" -> [m |-> Alternating(c.feat, TRUE), count |-> SumSeq(Alternating(c.feat, TRUE))]
            [] c.kind = "alt_odd" -> [m |-> Alternating(c.feat, FALSE), count |-> SumSeq(Alternating(c.feat, FALSE))]
